@@ -275,7 +275,7 @@ class Compile(Contract):
         P.ghost["site"] = self.prefix
         mod = I.load_module("formak.python")
         cls = I.module_attr(mod, "BasicBlock")
-        blk = SObj(cls, {"_arglist": W.arglist, "_exprs": W.exprs, "_config": SObj("Config", {"common_subexpression_elimination": self.cse, "python_modules": ("scipy", "numpy", "math")}, "config")}, "block")
+        blk = SObj(cls, {"_arglist": W.arglist, "_exprs": W.exprs, "_config": SObj("Config", {"common_subexpression_elimination": self.cse, "python_modules": SObj("PythonModules", {}, "config.python_modules")}, "config")}, "block")
         install_sympy_models(I, W)
 
         def temporaries_must_avoid(I2, site, tmpl):
@@ -450,6 +450,10 @@ def install_sympy_models(I, W):
         ps = as_seq2(params) if not isinstance(params, SSeq) else params
         if not isinstance(e, ExprV):
             raise Unsupported("lambdify of a non-expression")
+        # D-lam is assumed for the modules the block was CONFIGURED with (Config.python_modules may name the user's own functions or
+        # override known ones): every expression of the block, temporaries included, is compiled against that very object
+        mods = kw.get("modules")
+        I2.path.oblige(f"{I2.path.ghost.get('site', 'lambdify')}.dependency_call_shape.compiled_against_the_configured_modules", z3.BoolVal(isinstance(mods, SObj) and mods.cls == "PythonModules"), note="lambdify called with modules other than Config.python_modules")
         # premise of D-lam: the expression can be printed (no ComplexInfinity)
         I2.path.oblige(f"{I2.path.ghost.get('site', 'lambdify')}.compiled_expression_has_no_complex_infinity", finite_f(e.z), theory="euf")
         return LamV(ps, e.z)
